@@ -53,8 +53,8 @@ GEN = {
         dict(name="src3", Profile="src", MaxN=3, WithPeerWild="FALSE", replays=[(["plain"], ["tcp", "http"], None)]),
         dict(name="src2w", Profile="src", MaxN=2, WithPeerWild="TRUE", replays=[
             (["meta-dot"], ["tcp", "http"], None),
-            (["meta-plus", "meta-alt", "meta-paren"], ["tcp"], None),
-            (["meta-plus", "meta-alt", "meta-paren"], ["http"], lambda ix: len(ix) <= 1)]),
+            (["meta-plus", "meta-alt", "meta-paren"], ["tcp"], lambda ix: len(ix) == 2 and any(i["src"] == "*" for i in ix)),
+            (["meta-plus", "meta-alt", "meta-paren"], ["tcp", "http"], lambda ix: len(ix) <= 1)]),
         dict(name="perm1", Profile="perm", MaxN=1, WithPeerWild="FALSE", replays=[(["plain"], ["http"], None)]),
     ],
 }
